@@ -99,10 +99,18 @@ impl<C: CaseT> IsoCheck<C> {
 
     /// Parent side: runs `cases` (index, json) in one worker process after another until all are
     /// done; a dead worker is replaced and the case it was running gets a synthetic verdict.
-    fn run_slice(&self, prop: &str, cases: &[(usize, String)]) -> Vec<(usize, WireVerdict)> {
+    ///
+    /// `stop` is raised by the first slice that loses a worker (signal, allocation cap, watchdog):
+    /// the other slices then end after the case they are evaluating, so a tree on which many cases
+    /// hang costs one watchdog period per worker rather than one per hanging case.
+    fn run_slice(&self, prop: &str, cases: &[(usize, String)], stop: &std::sync::atomic::AtomicBool) -> Vec<(usize, WireVerdict)> {
+        use std::sync::atomic::Ordering;
         let mut out = Vec::new();
         let mut next = 0usize;
         while next < cases.len() {
+            if stop.load(Ordering::SeqCst) {
+                return out;
+            }
             let exe = match std::env::current_exe() {
                 Ok(e) => e,
                 Err(e) => {
@@ -170,6 +178,11 @@ impl<C: CaseT> IsoCheck<C> {
                                 out.push((cases[base + i].0, v));
                                 next = base + i + 1;
                                 running = None;
+                                if stop.load(Ordering::SeqCst) {
+                                    let _ = child.kill();
+                                    let _ = child.wait();
+                                    return out;
+                                }
                             }
                         }
                     }
@@ -215,6 +228,7 @@ impl<C: CaseT> IsoCheck<C> {
             });
             let idx = base + running.unwrap_or(next - base);
             if idx < cases.len() {
+                stop.store(true, Ordering::SeqCst);
                 out.push((cases[idx].0, WireVerdict::Fail(reason)));
                 next = idx + 1;
             } else {
@@ -246,11 +260,13 @@ impl<C: CaseT> DynCheck for IsoCheck<C> {
         let jsons: Vec<(usize, String)> = cases.iter().enumerate().map(|(i, c)| (i, serde_json::to_string(c).unwrap_or_default())).collect();
         let workers = ctx.threads.min(self.max_workers).min(jsons.len().max(1)).max(1);
         let mut results: Vec<(usize, WireVerdict)> = Vec::new();
+        let stop = std::sync::atomic::AtomicBool::new(false);
+        let stop = &stop;
         std::thread::scope(|scope| {
             let mut hs = Vec::new();
             for w in 0..workers {
                 let slice: Vec<(usize, String)> = jsons.iter().filter(|(i, _)| i % workers == w).cloned().collect();
-                hs.push(scope.spawn(move || self.run_slice(prop, &slice)));
+                hs.push(scope.spawn(move || self.run_slice(prop, &slice, stop)));
             }
             for h in hs {
                 if let Ok(r) = h.join() {
@@ -304,7 +320,7 @@ impl<C: CaseT> DynCheck for IsoCheck<C> {
                     };
                     // confirm alone in a fresh worker
                     if !harness_error {
-                        let again = self.run_slice(prop, &[(i, jsons[i].1.clone())]);
+                        let again = self.run_slice(prop, &[(i, jsons[i].1.clone())], &std::sync::atomic::AtomicBool::new(false));
                         match again.first().map(|x| &x.1) {
                             Some(WireVerdict::Pass { .. }) => {
                                 message = format!("not reproducible when re-run alone in a fresh worker (first run: {})", message);
@@ -318,7 +334,7 @@ impl<C: CaseT> DynCheck for IsoCheck<C> {
                 }
             }
         }
-        if evaluated < jsons.len() as u64 && failure.is_none() {
+        if evaluated < jsons.len() as u64 && failure.is_none() && !stop.load(std::sync::atomic::Ordering::SeqCst) {
             failure = Some(Failure { check: self.name.to_string(), message: format!("only {} of {} cases came back from the workers", evaluated, jsons.len()), case: serde_json::Value::Null, harness_error: true });
         }
         stats.subs.push(SubReport {
@@ -341,7 +357,7 @@ impl<C: CaseT> DynCheck for IsoCheck<C> {
         // replay through a worker as well, so that a crash is reported instead of killing us
         let json = case.to_string();
         let prop = std::env::var("VERIF_REPLAY_PROP").unwrap_or_default();
-        let r = self.run_slice(&prop, &[(0, json)]);
+        let r = self.run_slice(&prop, &[(0, json)], &std::sync::atomic::AtomicBool::new(false));
         match r.into_iter().next().map(|x| x.1) {
             Some(WireVerdict::Pass { .. }) => Ok(Verdict::Pass(Obs::new())),
             Some(WireVerdict::Fail(m)) => Ok(Verdict::Fail(m)),
